@@ -50,22 +50,27 @@ type Config struct {
 	// behind it (an attachment key would not do: a missing key falls back to the argument index); 2 = a
 	// permissive rule on the same argument
 	Front int `json:"front_rule,omitempty"`
+	// ReloadSpecA >= 0 (family F7): the alphabet has a reload that changes ONLY the specific threshold of value A
+	// (toggling between SpecA and ReloadSpecA); afterwards the rule in force is the new one, with fresh state
+	ReloadSpecA int64 `json:"reload_spec_a,omitempty"`
+	HasReload   bool  `json:"has_reload,omitempty"`
 }
 
 func (c Config) String() string { b, _ := json.Marshal(c); return string(b) }
 
-func (c Config) threshold(v string) int64 {
-	if v == "A" && c.SpecA >= 0 {
-		return c.SpecA
+func (s *scen) threshold(v string) int64 {
+	if v == "A" && s.specA >= 0 {
+		return s.specA
 	}
-	return c.T
+	return s.cfg.T
 }
 
 type opDef struct {
-	req   bool
-	val   int // index into values; -1 = request without the selected argument
-	batch uint32
-	tick  int64
+	reload bool
+	req    bool
+	val    int // index into values; -1 = request without the selected argument
+	batch  uint32
+	tick   int64
 }
 
 type pt struct{ X, Y int }
@@ -81,6 +86,9 @@ func vname(i int) string {
 }
 
 func (o opDef) String() string {
+	if o.reload {
+		return "reload(specific threshold of A toggled)"
+	}
 	if o.req {
 		return fmt.Sprintf("req(%s,%d)", vname(o.val), o.batch)
 	}
@@ -104,6 +112,8 @@ type scen struct {
 	firstSeen map[int]int64
 	lastReq   map[int]int64
 	sleeps    []time.Duration
+	specA     int64 // specific threshold of A in force
+	envA      int64 // the largest specific threshold of A that has been in force
 }
 
 func (s *scen) Name() string        { return s.cfg.String() }
@@ -123,8 +133,8 @@ func (s *scen) mkRule(res string) *hotspot.Rule {
 		r.ParamKey = "k"
 		r.ParamIndex = 0
 	}
-	if s.cfg.SpecA >= 0 {
-		r.SpecificItems = map[interface{}]int64{"A": s.cfg.SpecA}
+	if s.specA >= 0 {
+		r.SpecificItems = map[interface{}]int64{"A": s.specA}
 	}
 	return r
 }
@@ -139,6 +149,33 @@ func (s *scen) Reset() {
 	s.firstSeen = map[int]int64{}
 	s.lastReq = map[int]int64{}
 	s.lru = s.lru[:0]
+	s.specA, s.envA = s.cfg.SpecA, s.cfg.SpecA
+	s.loadRules()
+	s.prefixBad = ""
+	if s.cfg.Prefix > 0 {
+		reqA, pause := -1, -1
+		for i, o := range s.ops {
+			if o.req && o.val == 0 && o.batch == 1 && reqA < 0 {
+				reqA = i
+			}
+			if !o.req && o.tick == s.cfg.D*1000+1 {
+				pause = i
+			}
+		}
+		if reqA < 0 || pause < 0 {
+			panic("harness: prefix operations not in the alphabet")
+		}
+		for k := 0; k < s.cfg.Prefix && s.prefixBad == ""; k++ {
+			if _, v := s.apply(reqA); v != "" {
+				s.prefixBad = fmt.Sprintf("in sparse round %d of the prefix: %s", k+1, v)
+			}
+			s.apply(pause)
+		}
+	}
+}
+
+// loadRules (re)loads the rule list for the specific threshold in force.
+func (s *scen) loadRules() {
 	var rules []*hotspot.Rule
 	add := func(res string) {
 		switch s.cfg.Front {
@@ -160,27 +197,6 @@ func (s *scen) Reset() {
 	}
 	if len(hotspot.GetRules()) != len(rules) {
 		panic("harness: hotspot rule not accepted: " + s.cfg.String())
-	}
-	s.prefixBad = ""
-	if s.cfg.Prefix > 0 {
-		reqA, pause := -1, -1
-		for i, o := range s.ops {
-			if o.req && o.val == 0 && o.batch == 1 && reqA < 0 {
-				reqA = i
-			}
-			if !o.req && o.tick == s.cfg.D*1000+1 {
-				pause = i
-			}
-		}
-		if reqA < 0 || pause < 0 {
-			panic("harness: prefix operations not in the alphabet")
-		}
-		for k := 0; k < s.cfg.Prefix && s.prefixBad == ""; k++ {
-			if _, v := s.apply(reqA); v != "" {
-				s.prefixBad = fmt.Sprintf("in sparse round %d of the prefix: %s", k+1, v)
-			}
-			s.apply(pause)
-		}
 	}
 }
 
@@ -256,6 +272,22 @@ func (s *scen) Apply(i int) (string, string) {
 
 func (s *scen) apply(i int) (string, string) {
 	o := s.ops[i]
+	if o.reload {
+		if s.specA == s.cfg.SpecA {
+			s.specA = s.cfg.ReloadSpecA
+		} else {
+			s.specA = s.cfg.SpecA
+		}
+		s.loadRules()
+		// Whether the per-value counters of the replaced rule carry over is not this property's business (they
+		// do: C14 "a modified rule whose statistic parameters are unchanged keeps its accumulated statistics"), so
+		// the history is kept and the upper envelopes are judged against the most generous threshold that was
+		// in force; what MUST be admitted is judged against the threshold in force now.
+		if s.specA > s.envA {
+			s.envA = s.specA
+		}
+		return "", ""
+	}
 	if !o.req {
 		s.now += o.tick
 		env.Clock.SetMs(s.now)
@@ -289,7 +321,7 @@ func (s *scen) apply(i int) (string, string) {
 	if values[o.val] == "A" {
 		vn = "A"
 	}
-	T := s.cfg.threshold(vn)
+	T := s.threshold(vn)
 	D := s.cfg.D * 1000
 	if _, ok := s.firstSeen[o.val]; !ok {
 		s.firstSeen[o.val] = arrival
@@ -364,10 +396,13 @@ func (s *scen) apply(i int) (string, string) {
 	for _, x := range s.adm[o.val] {
 		total += x.tok
 	}
-	max := T + s.cfg.Burst
 	if T <= 0 {
 		return obs, fmt.Sprintf("%v admitted although the threshold for that value is %d", o, T)
 	}
+	if vn == "A" && s.envA > T {
+		T = s.envA // upper envelopes only from here on
+	}
+	max := T + s.cfg.Burst
 	// (r1) total <= max + T*(t-firstSeen)/D
 	if total*D > max*D+T*(arrival-s.firstSeen[o.val]) {
 		return obs, fmt.Sprintf("t=+%d %v: %d tokens admitted for the value since it was first seen %d ms ago, more than (threshold+burst)=%d plus threshold=%d per %d ms",
@@ -390,7 +425,7 @@ func (s *scen) apply(i int) (string, string) {
 
 func (s *scen) Key() string {
 	var b strings.Builder
-	fmt.Fprintf(&b, "lru%v|", s.lru)
+	fmt.Fprintf(&b, "lru%v|spec%d,%d|", s.lru, s.specA, s.envA)
 	ress := []string{"shared"}
 	for v := range values {
 		if _, ok := s.firstSeen[v]; ok && s.cfg.Family != "F4" {
@@ -461,6 +496,9 @@ func mkOps(cfg Config) []opDef {
 	for _, d := range ticks {
 		ops = append(ops, opDef{tick: d})
 	}
+	if cfg.HasReload {
+		ops = append(ops, opDef{reload: true})
+	}
 	return ops
 }
 
@@ -510,6 +548,10 @@ func configs(quick bool) []Config {
 		out = append(out, Config{Family: "F6", T: 1, D: 1, SpecA: -1, Front: fr}, Config{Family: "F6", T: 2, Burst: 1, D: 1, SpecA: 0, Front: fr, Index: 1},
 			Config{Family: "F6", Throttle: true, T: 2, D: 1, MaxQ: 500, SpecA: -1, Front: fr, ByKey: fr == 2})
 	}
+	// F7 a reload that changes only the specific threshold of A (lowered and raised)
+	out = append(out, Config{Family: "F7", T: 1, Burst: 0, D: 1, SpecA: 3, ReloadSpecA: 1, HasReload: true},
+		Config{Family: "F7", T: 2, Burst: 1, D: 1, SpecA: 1, ReloadSpecA: 4, HasReload: true},
+		Config{Family: "F7", Throttle: true, T: 1, D: 1, MaxQ: 1000, SpecA: 4, ReloadSpecA: 2, HasReload: true})
 	// F4 capacity below the number of values
 	for _, capa := range []int64{1, 2} {
 		out = append(out, Config{Family: "F4", T: 2, Burst: 1, D: 1, SpecA: -1, Capacity: capa})
